@@ -19,7 +19,7 @@ def check(tier):
                                "C05_transparent is proved (invariants I3-I5 of DESIGN.md 6/C05: sub-registry notification, generation snapshots, ro = C3 of current bases)"])
     rnd = core.rng("C05")
     gen = worldcommon.WorldGen(rnd, tier, PROFILE)
-    scripts = [gen.script(i % 2) for i in range({"quick": 60, "thorough": 2500}[tier])]
+    scripts = [gen.script(i % 2) for i in range({"quick": 60, "thorough": 900}[tier])]
     lines = [l for s in scripts for l in s]
     res = runner.run_impl_parallel("world", lines, [("c", []), ("py", []), ("c", ["twin"]), ("py", ["twin"])])
     impl, model, divs = runner.correspond(chk, "world", lines, label="world", precomputed={"c": res[0], "py": res[1]})
